@@ -1,1 +1,188 @@
-(* C16: filled in below *)
+(* Volume preservation with real derivatives (Coquelicot), one degree of freedom, ANY differentiable
+   gradient g (derivative g'): the implemented leapfrog map (q,p) -> (q',p') has partial derivatives
+   a = dq'/dq, b = dq'/dp, c = dp'/dq, d = dp'/dp with a d - b c = 1 at every point, for every step
+   size, inverse mass and number of steps.  The chain rule is Coquelicot's [is_derive_comp]; nothing is
+   left informal in this dimension. *)
+From Coq Require Import QArith Reals List Lra.
+From Coquelicot Require Import Coquelicot.
+Import ListNotations.
+From TT Require Import Num NumR M_leapfrog P_leapfrog.
+Open Scope R_scope.
+
+Definition M2 := (R * R * R * R)%type.            (* ((a, b), (c, d)) row-wise *)
+Definition ma (m : M2) := fst (fst (fst m)).
+Definition mb (m : M2) := snd (fst (fst m)).
+Definition mc (m : M2) := snd (fst m).
+Definition md (m : M2) := snd m.
+Definition mmul (m2 m1 : M2) : M2 :=
+  (ma m2 * ma m1 + mb m2 * mc m1, ma m2 * mb m1 + mb m2 * md m1,
+   mc m2 * ma m1 + md m2 * mc m1, mc m2 * mb m1 + md m2 * md m1).
+Definition mdet (m : M2) : R := ma m * md m - mb m * mc m.
+Lemma mdet_mmul m2 m1 : mdet (mmul m2 m1) = mdet m2 * mdet m1.
+Proof. unfold mdet, mmul, ma, mb, mc, md; simpl. ring. Qed.
+
+(* S has Jacobian matrix J: along every differentiable curve (Q,P) the image curve is differentiable
+   with velocity J (dq, dp) *)
+Definition has_jac (S : R * R -> R * R) (J : R * R -> M2) : Prop :=
+  forall (Q P : R -> R) (t0 dq dp : R), is_derive Q t0 dq -> is_derive P t0 dp ->
+    is_derive (fun t => fst (S (Q t, P t))) t0 (ma (J (Q t0, P t0)) * dq + mb (J (Q t0, P t0)) * dp) /\
+    is_derive (fun t => snd (S (Q t, P t))) t0 (mc (J (Q t0, P t0)) * dq + md (J (Q t0, P t0)) * dp).
+
+Definition vol (S : R * R -> R * R) : Prop :=
+  exists J, has_jac S J /\ forall x, mdet (J x) = 1.
+
+(* chain rule for maps of the plane *)
+Lemma has_jac_comp S1 J1 S2 J2 :
+  has_jac S1 J1 -> has_jac S2 J2 ->
+  has_jac (fun x => S2 (S1 x)) (fun x => mmul (J2 (S1 x)) (J1 x)).
+Proof.
+  intros H1 H2 Q P t0 dq dp HQ HP.
+  destruct (H1 Q P t0 dq dp HQ HP) as [D1 D2].
+  destruct (H2 (fun t => fst (S1 (Q t, P t))) (fun t => snd (S1 (Q t, P t))) t0 _ _ D1 D2) as [E1 E2].
+  cbn beta in E1, E2. rewrite <- surjective_pairing in E1, E2.
+  split.
+  - eapply is_derive_ext in E1; [|intros t; rewrite <- surjective_pairing; reflexivity].
+    replace (ma (mmul (J2 (S1 (Q t0, P t0))) (J1 (Q t0, P t0))) * dq +
+             mb (mmul (J2 (S1 (Q t0, P t0))) (J1 (Q t0, P t0))) * dp)
+      with (ma (J2 (S1 (Q t0, P t0))) * (ma (J1 (Q t0, P t0)) * dq + mb (J1 (Q t0, P t0)) * dp) +
+            mb (J2 (S1 (Q t0, P t0))) * (mc (J1 (Q t0, P t0)) * dq + md (J1 (Q t0, P t0)) * dp))
+      by (unfold mmul, ma, mb, mc, md; simpl; ring).
+    exact E1.
+  - eapply is_derive_ext in E2; [|intros t; rewrite <- surjective_pairing; reflexivity].
+    replace (mc (mmul (J2 (S1 (Q t0, P t0))) (J1 (Q t0, P t0))) * dq +
+             md (mmul (J2 (S1 (Q t0, P t0))) (J1 (Q t0, P t0))) * dp)
+      with (mc (J2 (S1 (Q t0, P t0))) * (ma (J1 (Q t0, P t0)) * dq + mb (J1 (Q t0, P t0)) * dp) +
+            md (J2 (S1 (Q t0, P t0))) * (mc (J1 (Q t0, P t0)) * dq + md (J1 (Q t0, P t0)) * dp))
+      by (unfold mmul, ma, mb, mc, md; simpl; ring).
+    exact E2.
+Qed.
+
+Lemma vol_comp S1 S2 : vol S1 -> vol S2 -> vol (fun x => S2 (S1 x)).
+Proof.
+  intros [J1 [H1 D1]] [J2 [H2 D2]].
+  exists (fun x => mmul (J2 (S1 x)) (J1 x)). split.
+  - apply has_jac_comp; auto.
+  - intros x. rewrite mdet_mmul, D1, D2. ring.
+Qed.
+
+Lemma vol_id : vol (fun x => x).
+Proof.
+  exists (fun _ => (1, 0, 0, 1)). split.
+  - intros Q P t0 dq dp HQ HP. unfold ma, mb, mc, md; simpl. split.
+    + replace (1 * dq + 0 * dp) with dq by ring. exact HQ.
+    + replace (0 * dq + 1 * dp) with dp by ring. exact HP.
+  - intros x. unfold mdet, ma, mb, mc, md; simpl. ring.
+Qed.
+
+Lemma vol_ext S S' : (forall x, S x = S' x) -> vol S -> vol S'.
+Proof.
+  intros E [J [H D]]. exists J. split; auto.
+  intros Q P t0 dq dp HQ HP. destruct (H Q P t0 dq dp HQ HP) as [A B]. split.
+  - eapply is_derive_ext; [|exact A]. intros t; cbn beta. rewrite E. reflexivity.
+  - eapply is_derive_ext; [|exact B]. intros t; cbn beta. rewrite E. reflexivity.
+Qed.
+
+Lemma vol_iter S L : vol S -> vol (iter L S).
+Proof.
+  intros HS. induction L.
+  - apply (vol_ext (fun x => x)); [reflexivity | apply vol_id].
+  - apply (vol_ext (fun x => iter L S (S x))); [reflexivity|]. apply vol_comp; auto.
+Qed.
+
+Section Dim1.
+Variables (mi : R) (g g' : R -> R).
+Hypothesis Hg : forall x, is_derive g x (g' x).
+
+(* the two shears on scalars *)
+Definition skick (c : R) (x : R * R) : R * R := (fst x, snd x - c * g (fst x)).
+Definition sdrift (c : R) (x : R * R) : R * R := (fst x + c * (mi * snd x), snd x).
+
+Lemma vol_skick c : vol (skick c).
+Proof.
+  exists (fun x => (1, 0, - c * g' (fst x), 1)). split.
+  - intros Q P t0 dq dp HQ HP. unfold ma, mb, mc, md, skick; cbn [fst snd]. split.
+    + replace (1 * dq + 0 * dp) with dq by ring. exact HQ.
+    + replace (- c * g' (Q t0) * dq + 1 * dp) with (minus dp (scal c (scal dq (g' (Q t0)))))
+        by (unfold minus, plus, opp, scal; simpl; unfold mult; simpl; ring).
+      apply (is_derive_minus (V := R_NormedModule)); [exact HP|].
+      apply (is_derive_scal (fun t => g (Q t))).
+      apply (is_derive_comp g Q); [apply Hg | exact HQ].
+  - intros x. unfold mdet, ma, mb, mc, md; simpl. ring.
+Qed.
+
+Lemma vol_sdrift c : vol (sdrift c).
+Proof.
+  exists (fun x => (1, c * mi, 0, 1)). split.
+  - intros Q P t0 dq dp HQ HP. unfold ma, mb, mc, md, sdrift; cbn [fst snd]. split.
+    + replace (1 * dq + c * mi * dp) with (plus dq (scal c (scal mi dp)))
+        by (unfold plus, scal; simpl; unfold mult; simpl; ring).
+      apply (is_derive_plus (V := R_NormedModule)); [exact HQ|].
+      apply (is_derive_scal (fun t => mi * P t)).
+      apply (is_derive_scal P). exact HP.
+    + replace (0 * dq + 1 * dp) with dp by ring. exact HP.
+  - intros x. unfold mdet, ma, mb, mc, md; simpl. ring.
+Qed.
+
+Variable eps : R.
+
+(* the implemented arrangement on scalars: kick(eps/2); L x [drift(eps); kick(eps)]; kick(-eps/2) *)
+Definition sleap (L : nat) (x : R * R) : R * R :=
+  skick (- (eps / 2)) (iter L (fun y => skick eps (sdrift eps y)) (skick (eps / 2) x)).
+
+Lemma vol_sleap L : vol (sleap L).
+Proof.
+  unfold sleap.
+  apply (vol_comp (fun x => iter L (fun y => skick eps (sdrift eps y)) (skick (eps / 2) x))
+                  (skick (- (eps / 2)))); [|apply vol_skick].
+  apply (vol_comp (skick (eps / 2)) (iter L (fun y => skick eps (sdrift eps y)))); [apply vol_skick|].
+  apply vol_iter. apply (vol_comp (sdrift eps) (skick eps)); [apply vol_sdrift | apply vol_skick].
+Qed.
+
+(* the model on one-dimensional vectors is this scalar map *)
+Definition lift (x : R * R) : list R * list R := ([fst x], [snd x]).
+Lemma kick_lift c x : kick NumR (map g) c (lift x) = lift (skick c x).
+Proof. destruct x; reflexivity. Qed.
+Lemma drift_lift c x : drift NumR (Diag [mi]) c (lift x) = lift (sdrift c x).
+Proof. destruct x; reflexivity. Qed.
+Lemma leapfrog_lift L x :
+  leapfrog NumR eps (Diag [mi]) (map g) L (lift x) = lift (sleap L x).
+Proof.
+  rewrite leapfrog_shears. unfold sleap. rewrite half_R, kick_lift.
+  assert (H : forall k y, iter k (fun y => kick NumR (map g) eps (drift NumR (Diag [mi]) eps y)) (lift y)
+                          = lift (iter k (fun y => skick eps (sdrift eps y)) y)).
+  { induction k; intros; simpl; auto. rewrite drift_lift, kick_lift. apply IHk. }
+  unfold kd. rewrite H, kick_lift. reflexivity.
+Qed.
+
+Definition Fq (L : nat) (q p : R) : R := nth 0 (fst (leapfrog NumR eps (Diag [mi]) (map g) L ([q], [p]))) 0.
+Definition Fp (L : nat) (q p : R) : R := nth 0 (snd (leapfrog NumR eps (Diag [mi]) (map g) L ([q], [p]))) 0.
+
+Lemma leapfrog_jacobian_det_one_dim1 L q p :
+  exists a b c d,
+    is_derive (fun t => Fq L t p) q a /\ is_derive (fun t => Fq L q t) p b /\
+    is_derive (fun t => Fp L t p) q c /\ is_derive (fun t => Fp L q t) p d /\
+    a * d - b * c = 1.
+Proof.
+  destruct (vol_sleap L) as [J [HJ DJ]].
+  exists (ma (J (q, p))), (mb (J (q, p))), (mc (J (q, p))), (md (J (q, p))).
+  assert (EFq : forall u v, Fq L u v = fst (sleap L (u, v))).
+  { intros. unfold Fq. change ([u], [v]) with (lift (u, v)). rewrite leapfrog_lift. reflexivity. }
+  assert (EFp : forall u v, Fp L u v = snd (sleap L (u, v))).
+  { intros. unfold Fp. change ([u], [v]) with (lift (u, v)). rewrite leapfrog_lift. reflexivity. }
+  (* partial derivatives in q: the curve t -> (t, p) at t = q *)
+  destruct (HJ (fun t => t) (fun _ => p) q 1 0 (is_derive_id q) (is_derive_const p q)) as [A C].
+  (* partial derivatives in p: the curve t -> (q, t) at t = p *)
+  destruct (HJ (fun _ => q) (fun t => t) p 0 1 (is_derive_const q p) (is_derive_id p)) as [B D].
+  cbn beta in A, B, C, D.
+  repeat split.
+  - eapply is_derive_ext; [intros t; symmetry; apply EFq|].
+    replace (ma (J (q, p))) with (ma (J (q, p)) * 1 + mb (J (q, p)) * 0) by ring. exact A.
+  - eapply is_derive_ext; [intros t; symmetry; apply EFq|].
+    replace (mb (J (q, p))) with (ma (J (q, p)) * 0 + mb (J (q, p)) * 1) by ring. exact B.
+  - eapply is_derive_ext; [intros t; symmetry; apply EFp|].
+    replace (mc (J (q, p))) with (mc (J (q, p)) * 1 + md (J (q, p)) * 0) by ring. exact C.
+  - eapply is_derive_ext; [intros t; symmetry; apply EFp|].
+    replace (md (J (q, p))) with (mc (J (q, p)) * 0 + md (J (q, p)) * 1) by ring. exact D.
+  - apply (DJ (q, p)).
+Qed.
+End Dim1.
